@@ -15,6 +15,18 @@ import (
 // print as phi(...) unless resolved by the caller.
 func Canon(v ssa.Value) string { return canon(v, 0, nil) }
 
+// canonPositional makes parameters print as p0, p1, … (receiver first)
+// instead of by name. The checker is single-threaded.
+var canonPositional bool
+
+// CanonPos is Canon with positional parameter names: insensitive to renaming
+// of parameters and receivers.
+func CanonPos(v ssa.Value) string {
+	canonPositional = true
+	defer func() { canonPositional = false }()
+	return canon(v, 0, nil)
+}
+
 // CanonWith prints with phi nodes resolved through sub (path-sensitive use).
 func CanonWith(v ssa.Value, sub func(*ssa.Phi) ssa.Value) string { return canon(v, 0, sub) }
 
@@ -33,6 +45,13 @@ func canon(v ssa.Value, depth int, sub func(*ssa.Phi) ssa.Value) string {
 		}
 		return x.Value.ExactString()
 	case *ssa.Parameter:
+		if canonPositional && x.Parent() != nil {
+			for i, p := range x.Parent().Params {
+				if p == x {
+					return "p" + string(rune('0'+i))
+				}
+			}
+		}
 		return x.Name()
 	case *ssa.FreeVar:
 		return "free:" + x.Name()
